@@ -115,11 +115,22 @@ func OpenDir(baseDir string) (*Bundle, error) {
 			deprecations = make(map[versions.Version]*RegistryVersionDeprecation)
 			ret.registryPackageVersionDeprecations[pkgAddr] = deprecations
 		}
+		// Several strings can spell the same version ("1.0.0", "1.0", "1"),
+		// and this loop visits them in no particular order, so two keys for
+		// one version would make the result depend on that order.
+		spelled := make(map[versions.Version]string, len(rpm.Versions))
 		for versionStr, mv := range rpm.Versions {
 			version, err := parseVersion(versionStr)
 			if err != nil {
 				return nil, fmt.Errorf("invalid registry package version %q: %w", versionStr, err)
 			}
+			if other, exists := spelled[version]; exists {
+				if other > versionStr {
+					other, versionStr = versionStr, other
+				}
+				return nil, fmt.Errorf("invalid registry package %s: versions %q and %q are the same version", pkgAddr, other, versionStr)
+			}
+			spelled[version] = versionStr
 			deprecations[version] = mv.Deprecation
 			sourceAddr, err := sourceaddrs.ParseRemoteSource(mv.SourceAddr)
 			if err != nil {
